@@ -180,7 +180,8 @@ EncFloat(nf) == <<nf[4] + 160, ((nf[2] \div 256) - 128) + 128 * nf[1], nf[2] % 2
 NormalNF(nf) == nf = Zero \/ (nf[1] \in {0, 1} /\ nf[2] \in 32768..65535 /\ nf[3] \in 0..65535)
 \* nearness of two normal forms (what "the digits denote the number" can mean at 32 bits of mantissa)
 AbsDiff(x, y) == IF x < y THEN y - x ELSE x - y
-NFClose(x, y) == x = y \/ (x # Zero /\ y # Zero /\ x[1] = y[1] /\ x[4] = y[4] /\ x[2] = y[2] /\ AbsDiff(x[3], y[3]) <= 2)
+\* "close": equal, or one unit apart in the last of the 32 mantissa bits
+NFClose(x, y) == x = y \/ (x # Zero /\ y # Zero /\ x[1] = y[1] /\ x[4] = y[4] /\ x[2] = y[2] /\ AbsDiff(x[3], y[3]) <= 1)
 NFGross(x, y) ==
   IF x = Zero /\ y = Zero THEN FALSE
   ELSE IF x = Zero THEN y[4] >= -45
@@ -302,7 +303,9 @@ Solid(R, it, ob, nums, j) ==
   ELSE IF it.k = "tok" THEN IF StartsWith(ob, j, Keyword(it.code)) THEN <<j + Len(Keyword(it.code)), 0>> ELSE <<0, 0>>
   ELSE IF it.k = "num" THEN
     LET k == CHOOSE k \in NumAt(nums, j) : TRUE IN
-    IF nums[k].nf = NumNF(it.par) THEN <<nums[k].end + 1, 0>> ELSE <<0, 0>>
+    IF nums[k].nf = NumNF(it.par) THEN <<nums[k].end + 1, 0>>
+    ELSE IF ~WellFormedNum(it.par) THEN <<nums[k].end + 1, 1>>       \* five bytes that are no number: any value shown
+    ELSE <<0, 0>>
   ELSE \* raw, ctl: an escape group naming exactly the bytes of the item
     LET e == IF ob[j] = 123 THEN FindClose(ob, j + 1) ELSE 0 IN
     IF e = 0 THEN <<0, 0>>
@@ -341,7 +344,8 @@ MatchFrom(R, its, ob, nums, cls, i, j, man, opt, st, nn, dr) ==
         MatchFrom(R, its, ob, nums, cls, i + 1, r[1], IF R = "loose" THEN 0 ELSE tr, IF R = "loose" THEN tr ELSE 0,
                   StAfter(R, it, st), IF it.k = "num" THEN nn + 1 ELSE nn, dr + r[2])
 \* text of a line / of a string against observed characters from index j on
-MatchText(R, its, ob, nums, cls, j, opt0, st0) == MatchFrom(R, its, ob, nums, cls, 1, j, 0, opt0, st0, 0, 0)
+\* (man0 / opt0: spaces that must / may precede the text, e.g. the separator after the line number)
+MatchText(R, its, ob, nums, cls, j, man0, opt0, st0) == MatchFrom(R, its, ob, nums, cls, 1, j, man0, opt0, st0, 0, 0)
 
 \* the exact text under a rule, for lines without number markers (used by the model check of the matcher)
 RECURSIVE Render(_, _, _, _)
